@@ -698,4 +698,40 @@ DecodeWithReplacement(d, src, cap, last, sink) == WithReplLoop(d, src, cap, last
 Decode(d, src, cap, last, sink, repl) ==
   IF repl THEN DecodeWithReplacement(d, src, cap, last, sink)
   ELSE PublicDecode(d, src, cap, last, sink) @@ [had |-> FALSE]
+
+(***************************************************************************)
+(* Decoder::latin1_byte_compatible_up_to (lib.rs life-cycle arms over      *)
+(* VariantDecoder::latin1_byte_compatible_up_to, variant.rs, and each      *)
+(* variant's in_neutral_state).  -1 = None, -2 = panic (finished decoder). *)
+(***************************************************************************)
+FirstWhere(bytes, P(_)) ==
+  LET idx == {j \in 1..Len(bytes) : P(bytes[j])}
+  IN  IF idx = {} THEN Len(bytes) ELSE (CHOOSE j \in idx : \A q \in idx : j <= q) - 1
+
+\* Encoding::ascii_valid_up_to / iso_2022_jp_ascii_valid_up_to / SingleByteDecoder::latin1_byte_compatible_up_to
+AsciiValidUpTo(bytes) == FirstWhere(bytes, LAMBDA b : b >= 128)
+IsoAsciiValidUpTo(bytes) == FirstWhere(bytes, LAMBDA b : b >= 128 \/ IsoBad(b))
+SbLatin1UpTo(enc, bytes) == FirstWhere(bytes, LAMBDA b : b >= 128 /\ Lookup(SbTables[enc], b - 128) # b)
+
+VariantNeutral(enc, v) ==
+  LET f == Family(enc) IN
+  CASE f \in {"big5", "euckr", "sjis"} -> v.lead = 0
+    [] f = "eucjp" -> v.st.a = 0
+    [] f = "gb" -> v.st.a = 0 /\ v.st.b = 0 /\ v.st.c = 0 /\ v.lead = 0
+    [] f = "utf8" -> v.st.c = 0
+    [] f = "iso2022jp" -> v.st.s = "ascii" /\ v.st.t = "ascii" /\ v.st.a = 0 /\ ~v.st.o /\ ~v.pp
+    [] OTHER -> TRUE
+
+VariantLatin1(enc, v, bytes) ==
+  LET f == Family(enc) IN
+  CASE f = "sb" -> SbLatin1UpTo(enc, bytes)
+    [] f \in {"repl", "utf16be", "utf16le"} -> -1
+    [] f = "iso2022jp" -> (IF VariantNeutral(enc, v) THEN IsoAsciiValidUpTo(bytes) ELSE -1)
+    [] f = "userdef" -> AsciiValidUpTo(bytes)
+    [] OTHER -> (IF VariantNeutral(enc, v) THEN AsciiValidUpTo(bytes) ELSE -1)
+
+DecoderLatin1(d, bytes) ==
+  IF d.lc = "Converting" THEN VariantLatin1(d.enc, d.v, bytes)
+  ELSE IF d.lc = "Finished" THEN -2
+  ELSE -1
 =============================================================================
